@@ -100,6 +100,18 @@ pub fn dispatch(op: &str, a: &[Val]) -> Option<Val> {
             let t = if d.offset().local_minus_utc() == 0 { SystemTime::from(d.with_timezone(&Utc)) } else { SystemTime::from(d) };
             Some(sys_triple(t))
         })(),
+        // the epoch and range constants
+        "ts.consts" => (|| {
+            if !a.is_empty() { return None; }
+            #[allow(deprecated)]
+            let ne = NaiveDateTime::UNIX_EPOCH;
+            Some(vtup(vec![
+                enc_dt(&DateTime::<Utc>::UNIX_EPOCH), vint(DateTime::<Utc>::UNIX_EPOCH.timestamp()), enc_ndt(ne),
+                enc_dt(&DateTime::<Utc>::MIN_UTC), enc_dt(&DateTime::<Utc>::MAX_UTC),
+                enc_ndt(NaiveDateTime::MIN), enc_ndt(NaiveDateTime::MAX),
+                vint(DateTime::<Utc>::MIN_UTC.timestamp()), vint(DateTime::<Utc>::MAX_UTC.timestamp()),
+            ]))
+        })(),
         _ => return None,
     };
     Some(r.unwrap_or_else(bad))
